@@ -472,7 +472,8 @@ func random(e *vlib.Env) vlib.Result {
 	}
 	// Message.UUID is not an identity: a quarter of the programs use empty or equal UUIDs (see gcw.Program.UUIDs)
 	prog.UUIDs = []string{"", "", "empty", "same"}[vlib.HashStr(e.ID())%4]
-	prog.MsgCtx = vlib.HashStr(e.ID()+"/msgctx")%3 == 0 // a third of the programs publish messages that carry (cancelled, soon cancelled, live) contexts
+	prog.SharedDecorator = vlib.HashStr(e.ID()+"/shared-decorator")%2 == 0 // one decorator value for all subscriptions and stack levels
+	prog.MsgCtx = vlib.HashStr(e.ID()+"/msgctx")%3 == 0                    // a third of the programs publish messages that carry (cancelled, soon cancelled, live) contexts
 	for i, n := 0, r.Range(1, 3); i < n; i++ {
 		prog.Pubs = append(prog.Pubs, gcw.PubSpec{Topic: r.Intn(prog.Topics), N: r.Range(1, 12), Batch: r.Range(1, 2)})
 	}
